@@ -123,7 +123,7 @@ def param2ast(param):
                     if isinstance(_param["default"], str)
                     else _param["default"]
                 )
-                if _param.get("default")
+                if _param.get("default") is not None
                 else simple_types.get(_param["typ"])
             ),
             expr=None,
